@@ -179,8 +179,18 @@ def shrink_case(case, fails, max_tries=400):
                 if attempt(dropinput):
                     changed = True
     # 4. drop persona entries of unused instances
+    import json as _json
     for n in sorted(cur['persona']):
         def droppersona(c, n=n):
+            # only values of copies of a form that nothing can ever ask about: the copy is neither requested nor referred to
+            # anywhere (dropping the value of an input that may still be asked for would leave the scripted user without an
+            # answer on a tree where the session gets that far - the replay must stay a valid case on the unchanged tree)
+            finst = n.split('.')[0]
+            if ':' not in finst:
+                return False
+            blob = _json.dumps([c['world'], c.get('requested'), c.get('field_names'), c.get('again')])
+            if finst in blob:
+                return False
             del c['persona'][n]
             c['file'] = [x for x in c['file'] if x != n]
         attempt(droppersona)
